@@ -27,7 +27,8 @@ def run(ctx: Context) -> None:
     )
     for r, t in (("C03.R1", "h11.Request arguments"), ("C03.R2", "HTTP/1.1 body: one Data per chunk, one EndOfMessage, all bytes written"),
                  ("C03.R3", "HTTP/2 header block shape"), ("C03.R4", "END_STREAM predicate agreement"), ("C03.R5", "HTTP/2 body: lossless chunks and splits"),
-                 ("C03.R6", "default header insertion"), ("C03.R7", "head rejected before any write")):
+                 ("C03.R6", "default header insertion"), ("C03.R7", "head rejected before any write"),
+                 ("C03.R8", "the Request object and its header list are never modified after construction (every transmission attempt sends the same request)")):
         rep.rule(r, t)
     for tree, N in trees(ctx):
         t = N.t
@@ -134,6 +135,7 @@ def run(ctx: Context) -> None:
                    "no cancellation point between draining h2's output buffer and writing it" if not between else
                    f"cancellation point `{between[0].text()}` lies between data_to_send() and the write: a request cancelled there drops frames the HPACK encoder has already accounted for - "
                    "every later header block on the connection decodes to different headers at the server")
+    _request_immutable(ctx)
     # R6 (shared)
     inc = ctx.prog.func("httpcore._models", "include_request_headers")
     hs = [n for n in own_nodes(inc.node) if isinstance(n, ast.Assign) and norm(n.targets[0]) == "headers_set"]
@@ -175,3 +177,46 @@ def run(ctx: Context) -> None:
             rq = [c for c in own_nodes(f.node) if isinstance(c, ast.Call) and norm(c.func) == "Request"]
             okq = len(rq) == 1 and {k.arg: norm(k.value) for k in rq[0].keywords} == {"method": "method", "url": "url", "headers": "headers", "content": "content", "extensions": "extensions"}
             rep.ob("C03.R6", fkey(tree, f, "request-assembly"), ok and okq, where(f), "the request is assembled from the enforced arguments with the default headers included")
+
+
+LIST_MUTATORS = {"append", "extend", "insert", "remove", "pop", "clear", "sort", "reverse", "__setitem__", "__delitem__", "update", "setdefault"}
+
+
+def _request_immutable(ctx: Context) -> None:
+    """Census: no store to an attribute of a Request, no in-place mutation of request.headers / request.extensions, anywhere
+    outside Request.__init__ (the pool may transmit the same Request object again)."""
+    rep = ctx.rep
+    sites = 0
+    funcs = []
+    for tree in ("async", "sync"):
+        funcs += [(tree, f) for f in ctx.names(tree).functions()]
+    funcs += [("shared", f) for f in ctx.prog.module("httpcore._models").all_functions() if f.short != "Request.__init__"]
+    funcs += [("shared", f) for f in ctx.prog.module("httpcore._trace").all_functions()]
+    for tree, f in funcs:
+        for n in own_nodes(f.node):
+            target = None
+            what = ""
+            if isinstance(n, ast.Attribute) and isinstance(n.ctx, (ast.Store, ast.Del)):
+                target, what = n.value, f"store to .{n.attr}"
+            elif isinstance(n, ast.Call) and isinstance(n.func, ast.Attribute) and n.func.attr in LIST_MUTATORS:
+                target, what = n.func.value, f".{n.func.attr}()"
+            elif isinstance(n, ast.AugAssign) and isinstance(n.target, (ast.Attribute, ast.Subscript)):
+                target, what = n.target, "augmented assignment"
+            elif isinstance(n, ast.Subscript) and isinstance(n.ctx, (ast.Store, ast.Del)):
+                target, what = n.value, "item store"
+            if target is None:
+                continue
+            ty = ctx.types.expr_type(target, f)
+            is_req = ty[0] == "cls" and ty[1].name == "Request"
+            txt = norm(target)
+            on_fields = any(txt == f"{r}.{fld}" or txt.startswith(f"{r}.{fld}.") or txt.startswith(f"{r}.{fld}[") for r in ("request", "self._request", "pool_request.request", "proxy_request", "connect_request")
+                            for fld in ("headers", "extensions", "url", "stream"))
+            if what.startswith("store") and not is_req:
+                continue
+            if not what.startswith("store") and not on_fields:
+                continue
+            sites += 1
+            rep.ob("C03.R8", fkey(tree, f, f"mutates-request:{norm(n)[:50]}"), False, where(f, n),
+                   f"`{ast.unparse(n)[:70]}` ({what}) modifies a Request after construction: a transparent re-send (or the caller's next use of the same objects) transmits a different request")
+    if not sites:
+        rep.ob("C03.R8", "both|*|request-immutable", True, "httpcore/", "no code modifies a Request object, its header list, URL or extensions after construction")
